@@ -30,6 +30,9 @@ pub struct Case {
     pub tasks: u8,
     /// some members refuse the connection (selection must not depend on it)
     pub refuse_mask: u8,
+    /// round robin only: if non-zero, about this many selections through one balancer (cursor far from its start)
+    #[serde(default)]
+    pub long: u32,
 }
 
 fn bi(s: &str) -> u8 {
@@ -112,6 +115,21 @@ pub fn case_strategy() -> impl Strategy<Value = Case> {
         rounds,
         tasks,
         refuse_mask,
+        long: 0,
+    })
+}
+
+/// long request streams through one round-robin balancer: the cursor passes 2^8, 2^12, 2^16
+pub fn long_strategy() -> impl Strategy<Value = Case> {
+    let total = prop_oneof![2 => 250u32..700, 2 => 4000u32..4400, 2 => 65_400u32..66_000, 3 => 200u32..70_000];
+    (2u8..14, any::<u8>(), total, prop_oneof![2 => Just(1u8), 1 => Just(4u8)], any::<u16>()).prop_map(|(n, spelling, long, tasks, tgt_port)| Case {
+        n,
+        algo: Algo::RoundRobin { spelling },
+        reqs: vec![ReqSpec { listener: 0, src_v6: false, src_host: 1, src_port: 4000, tgt_kind: 0, tgt_host: 1, tgt_port, feature: 0 }],
+        rounds: 1,
+        tasks,
+        refuse_mask: 0,
+        long,
     })
 }
 
@@ -140,6 +158,7 @@ pub fn run_case(case: &Case, info: &mut CaseInfo) -> Result<(), Failure> {
     let rounds = case.rounds as usize;
     let tasks = case.tasks.max(1) as usize;
     let refuse_mask = case.refuse_mask;
+    let long = case.long as usize;
     let concurrent = tasks > 1 && matches!(algo, Algo::RoundRobin { .. });
     let body = async move {
         let mut lb = crate::connectors::from_value(&value).map_err(|e| Failure::new("lb-config-rejected", format!("{} {:?}", e, e.cause)))?;
@@ -165,6 +184,7 @@ pub fn run_case(case: &Case, info: &mut CaseInfo) -> Result<(), Failure> {
         let mini = Arc::new(mini);
         // the request stream
         let stream: Vec<ReqSpec> = match algo {
+            Algo::RoundRobin { .. } if long > 0 => (0..(long / (n * tasks)).max(1) * n * tasks).map(|i| reqs[i % reqs.len()].clone()).collect(),
             Algo::RoundRobin { .. } => (0..rounds * n * tasks.max(1)).map(|i| reqs[i % reqs.len()].clone()).collect(),
             Algo::Random => (0..400 * n).map(|i| reqs[i % reqs.len()].clone()).collect(),
             Algo::HashBy { .. } => (0..reqs.len() * 3).map(|i| reqs[(i * 7) % reqs.len()].clone()).collect(),
@@ -209,7 +229,7 @@ pub fn run_case(case: &Case, info: &mut CaseInfo) -> Result<(), Failure> {
         // multi-thread runtime: real parallel selection
         let r = crate::harness::util::catch(|| {
             let rt = tokio::runtime::Builder::new_multi_thread().worker_threads(4).enable_all().build().unwrap();
-            rt.block_on(async { tokio::time::timeout(std::time::Duration::from_secs(60), body).await })
+            rt.block_on(async { tokio::time::timeout(std::time::Duration::from_secs(if long > 0 { 600 } else { 60 }), body).await })
         });
         match r {
             Ok(Ok(x)) => Ok(x),
@@ -270,7 +290,7 @@ pub fn run_case(case: &Case, info: &mut CaseInfo) -> Result<(), Failure> {
                 for w in seq.windows(n) {
                     let set: BTreeSet<usize> = w.iter().filter_map(|x| *x).collect();
                     if set.len() != n {
-                        fail!("rr-window", "{} consecutive selections do not cover every member once: {:?}", n, w);
+                        fail!("rr-window", "{} consecutive selections (of {}) do not cover every member once: {:?}", n, total, w);
                     }
                 }
             }
@@ -316,6 +336,9 @@ pub fn run_case(case: &Case, info: &mut CaseInfo) -> Result<(), Failure> {
             info.class(if multi { "hash-multi-group" } else { "hash-single-group" });
         }
     }
+    if long > 0 {
+        info.class(if stream.len() > 65_536 { "cursor-past-2^16" } else if stream.len() > 4096 { "cursor-past-2^12" } else if stream.len() > 256 { "cursor-past-2^8" } else { "cursor-short" });
+    }
     info.class(match &case.algo {
         Algo::RoundRobin { .. } => {
             if concurrent {
@@ -327,7 +350,7 @@ pub fn run_case(case: &Case, info: &mut CaseInfo) -> Result<(), Failure> {
         Algo::Random => "random",
         Algo::HashBy { .. } => "hash",
     });
-    info.nontrivial = n >= 2 && stream.len() >= 2 * n;
+    info.nontrivial = n >= 2 && stream.len() >= 2 * n && (long == 0 || stream.len() > 256);
     info.sample = Some(json!({"config": yaml, "selections": stream.len(), "tasks": if concurrent { tasks } else { 1 }, "counts": calls.iter().map(|c| c.len()).collect::<Vec<_>>()}));
     Ok(())
 }
@@ -341,6 +364,16 @@ pub fn checks() -> Vec<Box<dyn SubCheck>> {
         thorough: 40_000,
         max_shrink: 300,
         strategy: case_strategy,
+        case: run_case,
+    }),
+    Box::new(vcore::PropCheck {
+        property: "C17",
+        name: "long-run",
+        rule: "round robin over 2-13 members (incl. counts that divide no power of two) with 200 - 70000 selections through ONE balancer via the real process_request, sequentially or from 4 tasks on a 4-thread runtime, lengths clustered just past 2^8, 2^12 and 2^16 so that a cursor that is narrowed, masked or reset somewhere shows; oracle: each member exactly k times in k*n selections and (sequential) every window of n consecutive selections covers every member once; non-trivial = more than 256 selections",
+        quick: 10,
+        thorough: 300,
+        max_shrink: 40,
+        strategy: long_strategy,
         case: run_case,
     })]
 }
